@@ -52,12 +52,51 @@ def report(ctx, part, v, cases, kf):
         r = rej.get(k)
         ctx.violation("%s case %d rejected by the contract at line %s: %s" % (part, k, r[1] if r else "?", r[2] if r else "unfinished case"),
                       {"part": part, "case": k, "trace": cases.get(k), "first_unmatched": r[2] if r else None,
-                       "kf_switches": kf, "how": "validate the trace lines with spec/%sTrace.tla" % part})
+                       "kf_switches": kf, "module": part + "Trace.tla",
+                       "consts": ({"KF_C20_EmptyVolume": kf["KF_C20_EmptyVolume"]} if part == "SeekChain"
+                                  else {"KF_C20_ReportedPreexisting": kf["KF_C20_ReportedPreexisting"]}), "how": "bin/check C20 quick --replay <this file>"})
     for k, labels in v.known.items():
         if k not in v.violations:
             for lab in labels:
                 ctx.known(c.kf_text("C20", lab))
     return len(cases) - len(v.violations)
+
+
+def validate_chunked(ctx, name, module, trace, consts, max_lines=40000, timeout=3000):
+    """TLC trace validation in chunks of whole cases (a single huge trace makes TLC's per-state cost grow and hits the
+    30-minute checkpoint, which the StateDeque queue does not support); verdicts are merged (case numbers are global)"""
+    chunks = []
+    cur, n = None, 0
+    idx = 0
+    with open(trace) as f:
+        for line in f:
+            if cur is None or (n >= max_lines and '"ev":"reset"' in line):
+                if cur:
+                    cur.close()
+                idx += 1
+                p = "%s.chunk%d" % (trace, idx)
+                chunks.append(p)
+                cur, n = open(p, "w"), 0
+            cur.write(line)
+            n += 1
+    if cur:
+        cur.close()
+    merged = None
+    for i, p in enumerate(chunks):
+        v = c.validate_trace(ctx, "%s-%d" % (name, i + 1), module, p, consts, timeout=timeout)
+        ctx.add_tlc("%s-trace-validation-%d" % (name, i + 1), v.res)
+        if merged is None:
+            merged = v
+        else:
+            merged.violations |= v.violations
+            for k, labs in v.known.items():
+                merged.known.setdefault(k, set()).update(labs)
+            merged.rejected += v.rejected
+            merged.states += v.states
+        os.remove(p)
+    if merged is None:
+        raise c.ToolError("empty trace " + trace)
+    return merged
 
 
 def binding_selftest(ctx, scases, sv, xcases, xv, kf):
@@ -156,13 +195,12 @@ def check(ctx):
     write_scn(scn_path, scns)
     # (c, d) replay + random
     strace = ctx.path("seek-trace.ndjson")
-    nrand = 250 if quick else 6000
+    nrand = 250 if quick else 2000
     sinfo = drive(binp, ["--mode", "seek", "--scenarios", scn_path, "--random", str(nrand), "--seed", str(ctx.seed),
                          "--out", strace, "--tmp", tmp, "--repo", c.REPO, "--sample", "200" if quick else "2000",
                          "--max-total", "300" if quick else "3000", "--repo-cases", "5" if quick else "40"])
     # (e) trace validation
-    sv = c.validate_trace(ctx, "seek", "SeekChainTrace.tla", strace, {"KF_C20_EmptyVolume": kf["KF_C20_EmptyVolume"]}, timeout=3000)
-    ctx.add_tlc("seek-trace-validation", sv.res)
+    sv = validate_chunked(ctx, "seek", "SeekChainTrace.tla", strace, {"KF_C20_EmptyVolume": kf["KF_C20_EmptyVolume"]})
     scases = c.split_cases(strace)
     s_ok = report(ctx, "SeekChain", sv, scases, kf)
 
@@ -202,9 +240,7 @@ def check(ctx):
                 for line in f:
                     out.write(line)
             os.remove(xtrace + part)
-    xv = c.validate_trace(ctx, "extract", "ExtractTrace.tla", xtrace,
-                          {"KF_C20_ReportedPreexisting": kf["KF_C20_ReportedPreexisting"]}, timeout=6000)
-    ctx.add_tlc("extract-trace-validation", xv.res)
+    xv = validate_chunked(ctx, "extract", "ExtractTrace.tla", xtrace, {"KF_C20_ReportedPreexisting": kf["KF_C20_ReportedPreexisting"]})
     xcases = c.split_cases(xtrace)
     x_ok = report(ctx, "Extract", xv, xcases, kf)
 
